@@ -81,3 +81,34 @@ Theorem C01_core_fragment_functions : forall n fn f args v s',
   exists m, eval m (fold_left App (map Val args) (Val f)) state0 = RVal v s'.
 Proof. exact func_correct. Qed.
 Print Assumptions C01_core_fragment_functions.
+
+(* Loops (Tr/MiniGoL.v: the fragment above plus 3-clause and condition-only for
+   loops with break and continue, loop variables whose binding extends over the
+   following statements unless it hides a visible variable).  For every body
+   without nested blocks that the translator model accepts, every argument
+   vector and every returning Go run, the emitted body evaluates to Go's result;
+   the general statement covers every statement list under the three usages
+   (function tail, loop body, local) and every loop with any number of
+   iterations. *)
+From GV Require Import Tr.MiniGoL Tr.MiniGoLProofs.
+
+Theorem C01_loops_meaning_preserved : forall n tf fn e args v s',
+  trl tf (params_env (lf_params fn)) UReturned (lf_body fn) None = Some e ->
+  noblocks (lf_body fn) = true ->
+  length args = length (lf_params fn) ->
+  lgo_call n fn args = LRet v s' ->
+  exists m, eval m (close (cs_of (rev (combine (map fst (lf_params fn)) (map Imm args)))) e) state0 = RVal v s'.
+Proof. exact lbody_correct. Qed.
+Print Assumptions C01_loops_meaning_preserved.
+
+Theorem C01_loops_statement_lists_and_iterations : forall n, P_lgo n /\ P_lloop n.
+Proof. exact trl_correct. Qed.
+Print Assumptions C01_loops_statement_lists_and_iterations.
+
+Theorem C01_loops_example :
+  (exists e, trl 30 (params_env (lf_params example_loop)) UReturned (lf_body example_loop) None = Some e) /\
+  noblocks (lf_body example_loop) = true /\
+  (exists s', lgo_call 200 example_loop [LitV (LitInt 6)] = LRet (LitV (LitInt 9)) s') /\
+  (exists s', lgo_call 200 example_loop [LitV (LitInt 100)] = LRet (LitV (LitInt 99)) s').
+Proof. exact example_loop_accepted_and_returns. Qed.
+Print Assumptions C01_loops_example.
